@@ -183,12 +183,22 @@ def run(tier):
     r, _ = SW.sweep_space3('mindsdb', stmts, want_c19=True)
     run.add_stats({'paths': r['paths'], 'solver_calls': r['solver_calls'], 'solver_s': r['solver_s']})
     handle_suggestions(run, 'suggestions:space-iii:%d-statements' % len(stmts), r)
+    try:
+        from harness import c19hist
+        c19hist.add(run, tier)
+    except Exception as e:  # noqa
+        import traceback
+        run.error('history part crashed: %r %s' % (e, traceback.format_exc()[-300:]))
+    run.bounds['suggestions_after_history'] = 'corpus statements (400 / all) cut after every token, every second cut also with a wrong token appended; reported in forward and in reverse order in one interpreter'
     run.finish()
 
 
 def replay(path):
     r = json.load(open(path))
     print(json.dumps(r, indent=1))
+    if r['replay'].get('history'):
+        from harness import c19hist
+        return c19hist.replay(r)
     f = r['replay'].get('finding')
     if f:
         rep, info = replay_no_location(f) if f.get('kind') == 'c19-message-without-location' else replay_suggestion(f)
